@@ -14,6 +14,7 @@ import AcnModel.Gen.Consts
 import AcnProofs.Lemmas.FeasSums
 import AcnProofs.Lemmas.FeasAgree
 import AcnProofs.Lemmas.FeasComplex
+import AcnProofs.Lemmas.FeasCurrent
 import Mathlib.Tactic
 
 namespace Acn.C06
@@ -131,6 +132,29 @@ theorem net_feasible_iff_phasor {m n T : Nat} (M : Fin m → Fin n → ℝ) (lim
   refine forall_congr' fun i => forall_congr' fun t => ?_
   rw [norm_le_iff_sq, phasor_sum_re, phasor_sum_im]
   simp only [mul_assoc]
+
+/-- `constraint_current(S, constraints=names, time_indices=ts)`: selecting rows (matrix order) and
+    periods (request order, repeats allowed) commutes with computing the aggregate currents; an
+    index beyond the schedule is an `IndexError`. -/
+theorem constraint_current_select (cids : List String) (M : List (List K)) (c s : List K)
+    (S : List (List K)) (names : Option (List String)) (ts : List Nat) :
+    (constraintCurrentSq cids M c s S names (some ts)
+      = if ∀ t ∈ ts, t < periods S then
+          .ok ((selectRows cids M names).map fun row => ts.map fun t => sqMag row c s (col S t))
+        else .error .indexError) ∧
+    (cids.length = M.length → selectRows cids M none = M) := by
+  refine ⟨?_, selectRows_all cids M⟩
+  split
+  · exact constraintCurrentSq_select cids M c s S names ts ‹_›
+  · rename_i h
+    simp only [not_forall, not_lt] at h
+    obtain ⟨t, ht, hle⟩ := h
+    exact constraintCurrentSq_oob cids M c s S names ts ⟨t, ht, hle⟩
+
+/-- rows `q` only (the unknown name is ignored), periods 1, 1, 0 -/
+example : constraintCurrentSq ["p", "q"] [[(1 : ℚ), 1, 0], [0, 1, -1]] [1, 0, 3/5] [0, 1, 4/5]
+    [[3, 4], [4, 3], [1, 0]] (some ["q", "zz"]) (some [1, 1, 0])
+      = .ok [[9, 9, 53/5]] := by decide +kernel
 
 /-! ### 2. the three checkers agree -/
 
